@@ -4,6 +4,8 @@
 cd /verif
 MODE=""; [ "${1:-}" = "--in-repo" ] && { MODE="--in-repo"; shift; }
 IDS="${*:-$(ls seeded)}"
+# build every seed against one snapshot of the harness sources taken now
+SNAP=/tmp/refresh_harness.$$; rm -rf $SNAP; cp -r /verif/harness $SNAP; export HARNESS_DIR=$SNAP; trap "rm -rf $SNAP" EXIT
 run1() { id=$1; tools/seedcheck.sh $MODE --no-confirm seeded/$id > /tmp/refresh_$id.txt 2>&1
   python3 - "$id" <<'PY'
 import json,re,sys
